@@ -17,6 +17,7 @@ pub mod c14;
 pub mod c15;
 pub mod c16;
 pub mod cmp;
+pub mod sweep;
 
 pub struct Plan {
     /// build profiles of the code under test in which the space is executed
@@ -84,6 +85,7 @@ pub fn run_space(ctx: &mut Ctx) {
         "C15" => c15::run(ctx),
         "C16" => c16::run(ctx),
         "C17" => {
+            sweep::effects_probes(ctx);
             crate::history::run(ctx);
             crate::sched::run(ctx);
             // sampling proviso, labelled as such in the evidence (see sched::stress)
